@@ -9,3 +9,11 @@ for f in sorted(glob.glob("/verif/seeded/*/meta.json")):
     rows.append("| %s | %s | %s | %s |" % (n, m["property"], m["needs_to_manifest"].replace("|", "/"), cell.replace("|", "/")))
 print("| seeded change | property | needs, in order to manifest | result |\n|---|---|---|---|")
 print("\n".join(rows))
+
+import sys
+if "--write" in sys.argv:
+    p = "/verif/DESIGN.md"
+    s = open(p).read()
+    a = s.index("<!-- SEEDTABLE-BEGIN -->"); b = s.index("<!-- SEEDTABLE-END -->")
+    tbl = "| seeded change | property | needs, in order to manifest | result |\n|---|---|---|---|\n" + "\n".join(rows) + "\n"
+    open(p, "w").write(s[:a] + "<!-- SEEDTABLE-BEGIN -->\n" + tbl + s[b:])
